@@ -29,7 +29,7 @@ def qmat(a):
     return [[q(v) for v in row] for row in np.atleast_2d(a)]
 
 
-def close(J, Jx, exact):
+def close(J, Jx, exact, slack=0.0):
     """J: float array; Jx: list of lists of Fractions"""
     J = np.atleast_2d(J)
     if J.shape != (len(Jx), len(Jx[0]) if Jx else 0):
@@ -43,7 +43,7 @@ def close(J, Jx, exact):
                 if F(a) != v:
                     return False, 'entry [%d,%d] = %r, exact derivative %s' % (i, j, a, v)
             else:
-                if not abs(a - float(v)) <= TOL * max(1.0, abs(float(v))):
+                if not abs(a - float(v)) <= TOL * max(1.0, abs(float(v))) + slack:
                     return False, 'entry [%d,%d] = %r, exact derivative %s (%.17g)' % (i, j, a, v, float(v))
     return True, ''
 
@@ -99,6 +99,13 @@ def handle(c):
     Jx = {(ds): sg.totals_from_inverse(flat, ex['Minv'], scaled=ds) for ds in (False, True)}
     Jraw = sg.totals_from_inverse(flat, ex['Minv'], scaled=False, unit_scaled=False)
     sexact = spec_exact(spec, flat)
+    # largest factor by which unit / driver scaling multiplies an entry of J (the slack of iterative solvers
+    # is a bound on the unscaled solution error)
+    scale_max = {}
+    for ds in (False, True):
+        rf = [float(abs(r['unit_scaler'] * (t if ds else 1))) for r in flat['responses'] for t in sg.total_scaler(r)]
+        cf = [float(abs(d['unit_scaler'] * (t if ds else 1))) for d in flat['desvars'] for t in sg.total_scaler(d)]
+        scale_max[ds] = max(rf + [1.0]) / min(cf + [1.0])
     out = {'ok': True, 'msg': '', 'sig': '', 'kind': kind, 'exact': sexact, 'vacuous': 0, 'ncfg': 0}
     res = [None, None, None, None, None]
 
@@ -125,10 +132,12 @@ def handle(c):
         out['ncfg'] += 1
         ds = bool(cfg.get('driver_scaling', False))
         exact = sexact and cfg_exact(cfg)
-        good, why = close(J, Jx[ds], exact)
+        iterative = spec['coupled'] or not str(cfg.get('lin', '')).startswith('direct')
+        slack = sg.solver_slack(ex) * scale_max[ds] if (iterative and not exact) else 0.0
+        good, why = close(J, Jx[ds], exact, slack)
         if not good:
             fail(cfg, 'compute_totals(%s) differs from the exact derivative: %s' % (
-                'exact comparison' if exact else 'tol 1e-9', why))
+                'exact comparison' if exact else 'tol 1e-9 + solver slack %.2g' % slack, why))
         if cfg.get('primary'):
             slot = (2 if ds else 0) + (1 if cfg['mode'] == 'rev' else 0)
             res[slot] = qmat(J)
